@@ -139,6 +139,24 @@ class Gen:
                     rng, depth=1, classes=self.str_classes,
                     finite=self.finite, dates=self.any_dates)
             kwargs['_yatiml_extra'] = ex
+        if c.get('unique_list'):
+            attr, key_attr = c['unique_list']
+            seen, uniq = set(), []
+            for it in kwargs.get(attr) or []:
+                k = str(getattr(it, '_v_args', {}).get(key_attr))
+                if k not in seen:
+                    seen.add(k)
+                    uniq.append(it)
+            kwargs[attr] = uniq
+        if c.get('index_attr'):
+            attr, key_attr = c['index_attr']
+            ktype = [p for p in c['params'] if p['name'] == attr][0]['type'][1]
+            new = {}
+            for it in (kwargs.get(attr) or {}).values():
+                ks = str(getattr(it, '_v_args', {}).get(key_attr))
+                key = ks if ktype == 'str' else m.classes[ktype[1]](ks)
+                new[key] = it
+            kwargs[attr] = new
         obj = m.classes[cname](**kwargs)
         self.made.append(obj)
         return obj
